@@ -89,7 +89,7 @@ func (c Config) Validate() Config {
 	}
 
 	// Clamp BackoffFactor to reasonable range
-	if validated.BackoffFactor < MinBackoffFactor {
+	if validated.BackoffFactor < MinBackoffFactor || validated.BackoffFactor != validated.BackoffFactor { // also NaN
 		validated.BackoffFactor = MinBackoffFactor
 	} else if validated.BackoffFactor > MaxBackoffFactor {
 		validated.BackoffFactor = MaxBackoffFactor
